@@ -170,13 +170,34 @@ def char_pred(ex, name, c):
     v = c.v
     if isinstance(v, int):
         ch = chr(v)
-        return {'is_numeric': ch.isnumeric(), 'is_alphanumeric': ch.isalnum() or ch.isnumeric(), 'is_alphabetic': ch.isalpha(),
-                'is_whitespace': ch.isspace(), 'is_ascii_digit': '0' <= ch <= '9'}[name]
+        a = v < 0x80
+        table = {'is_numeric': ch.isnumeric(), 'is_alphanumeric': ch.isalnum() or ch.isnumeric(), 'is_alphabetic': ch.isalpha(),
+                 'is_whitespace': ch.isspace(), 'is_ascii_digit': '0' <= ch <= '9', 'is_ascii': a,
+                 'is_ascii_alphabetic': a and ch.isalpha(), 'is_ascii_alphanumeric': a and ch.isalnum(),
+                 'is_ascii_whitespace': ch in ' \t\n\x0c\r', 'is_ascii_lowercase': 'a' <= ch <= 'z', 'is_ascii_uppercase': 'A' <= ch <= 'Z',
+                 'is_ascii_punctuation': a and (not ch.isalnum()) and 0x21 <= v <= 0x7e, 'is_control': v < 0x20 or 0x7f <= v <= 0x9f,
+                 'is_ascii_control': v < 0x20 or v == 0x7f, 'is_ascii_graphic': 0x21 <= v <= 0x7e, 'is_ascii_hexdigit': ch in '0123456789abcdefABCDEF',
+                 'is_lowercase': ch.islower(), 'is_uppercase': ch.isupper()}
+        return table[name]
     digit = z3.And(z3.UGE(v, 0x30), z3.ULE(v, 0x39))
     alpha = z3.Or(z3.And(z3.UGE(v, 0x41), z3.ULE(v, 0x5a)), z3.And(z3.UGE(v, 0x61), z3.ULE(v, 0x7a)))
     asc = z3.ULT(v, 0x80)
-    if name == 'is_ascii_digit':
-        return digit
+    lower = z3.And(z3.UGE(v, 0x61), z3.ULE(v, 0x7a))
+    upper = z3.And(z3.UGE(v, 0x41), z3.ULE(v, 0x5a))
+    simple = {
+        'is_ascii_digit': digit, 'is_ascii': asc, 'is_ascii_alphabetic': alpha, 'is_ascii_alphanumeric': z3.Or(alpha, digit),
+        'is_ascii_whitespace': z3.Or(v == 0x20, v == 9, v == 10, v == 12, v == 13), 'is_ascii_lowercase': lower, 'is_ascii_uppercase': upper,
+        'is_ascii_control': z3.Or(z3.ULT(v, 0x20), v == 0x7f), 'is_ascii_graphic': z3.And(z3.UGE(v, 0x21), z3.ULE(v, 0x7e)),
+        'is_ascii_punctuation': z3.And(z3.UGE(v, 0x21), z3.ULE(v, 0x7e), z3.Not(z3.Or(alpha, digit))),
+        'is_ascii_hexdigit': z3.Or(digit, z3.And(z3.UGE(v, 0x41), z3.ULE(v, 0x46)), z3.And(z3.UGE(v, 0x61), z3.ULE(v, 0x66))),
+        'is_control': z3.Or(z3.ULT(v, 0x20), z3.And(z3.UGE(v, 0x7f), z3.ULE(v, 0x9f))),
+    }
+    if name in simple:
+        return simple[name]
+    if name == 'is_lowercase':
+        return z3.If(asc, lower, _uf(ex.uni, 'unicode_is_lowercase')(v))
+    if name == 'is_uppercase':
+        return z3.If(asc, upper, _uf(ex.uni, 'unicode_is_uppercase')(v))
     num_hi = _uf(ex.uni, 'unicode_is_numeric')(v)
     alpha_hi = _uf(ex.uni, 'unicode_is_alphabetic')(v)
     if name == 'is_numeric':
@@ -191,7 +212,7 @@ def char_pred(ex, name, c):
     raise Unsupported('char predicate %s' % name)
 
 
-@model(r'^char::methods::<impl char>::(is_numeric|is_alphanumeric|is_alphabetic|is_whitespace|is_ascii_digit)$')
+@model(r'^(core::)?char::methods::<impl char>::(is_\w+)$')
 def m_char_pred(ex, callee, args):
     name = callee.rsplit('::', 1)[1]
     return char_pred(ex, name, deref_all(args[0]))
